@@ -16,7 +16,7 @@ RULE = ("Exhaustive grid: p in 1..7, K in 0..8, size = every int 0..8 and every 
         "[0, p), each of the requested length / inside [lo, hi], pairwise disjoint when not replace, identical for identical "
         "seeds. Over the seeds of a feasible cell: every size in [lo, hi] and every variable occurs (only demanded where the "
         "coupon-collector miss probability of a correct sampler is < 1e-12). Non-trivial = feasible cell on the boundary "
-        "(max size*K = p without replacement, size = p, size 0 with K > p, lo < hi) or infeasible cell adjacent to a feasible one.")
+        "(max size*K = p without replacement, size = p, size 0 with K > p, lo < hi) or infeasible cell adjacent to a feasible one. Also: pools of 61..25,000 variables with sizes just below p/20, p/10, p/2 and K*p > 10^7 (~600k interventions per quick run); per-cell seed counts raised until the coverage demands are effective.")
 ASSUMPTIONS = [
     "lo > hi is not generated; element types (numpy ints) are free",
     "coverage of sizes / variables is only demanded when a correct sampler misses with probability < 1e-12",
